@@ -14,13 +14,13 @@ import (
 
 // LongOpts describes a ledger long enough to be truncated (more than 1000 ancestors below a tip).
 type LongOpts struct {
-	Nodes       int    // 1 = chain; 2-3 = wide DAG from lagging exchange
-	Size        int    // vertices before the first truncation (1001..1400)
-	Truncations int    // 1..3
-	Between     int    // vertices added between truncations (>= 1001 for a further cut to exist)
-	Race        bool   // run proposals concurrently with the truncation
-	MultiTip    bool   // leave several tips at the moment of truncation
-	PostOps     int    // hostile operations after the last truncation
+	Nodes       int  // 1 = chain; 2-3 = wide DAG from lagging exchange
+	Size        int  // vertices before the first truncation (1001..1400)
+	Truncations int  // 1..3
+	Between     int  // vertices added between truncations (>= 1001 for a further cut to exist)
+	Race        bool // run proposals concurrently with the truncation
+	MultiTip    bool // leave several tips at the moment of truncation
+	PostOps     int  // hostile operations after the last truncation
 	Tag         string
 }
 
